@@ -954,6 +954,8 @@ class Patron(object):
     def redirect(self):
         """
         Perform redirect
+        Returns False when the location of the redirect is not a valid url
+        so the redirect can not be followed, True otherwise
         """
         if self.redirects:
             redirect = self.redirects[-1]
@@ -962,20 +964,23 @@ class Patron(object):
             host = self.requester.hostname
             if u':' in host:  # ipv6
                 host = u'[' + host + u']'
-            location = urljoin(u"{0}://{1}:{2}{3}".format(self.requester.scheme,
-                                                         host,
-                                                         self.requester.port,
-                                                         quote(self.requester.path)),
-                               location)
-            path, sep, query = location.partition('?')
-            path = unquote(path)
-            if sep:
-                location = sep.join([path, query])
-            else:
-                location = path
-            splits = urlsplit(location)
-            hostname = splits.hostname
-            port = splits.port
+            try:
+                location = urljoin(u"{0}://{1}:{2}{3}".format(self.requester.scheme,
+                                                             host,
+                                                             self.requester.port,
+                                                             quote(self.requester.path)),
+                                   location)
+                path, sep, query = location.partition('?')
+                path = unquote(path)
+                if sep:
+                    location = sep.join([path, query])
+                else:
+                    location = path
+                splits = urlsplit(location)
+                hostname = splits.hostname
+                port = splits.port
+            except ValueError as ex:  # malformed such as unbalanced [ or bad port
+                return False
             scheme = splits.scheme
             scheme = 'https' if scheme.lower() == 'https' else 'http'
             if scheme == 'https':
@@ -1032,6 +1037,7 @@ class Patron(object):
             self.respondent.redirectant = False
             self.respondent.redirected = True
             self.respondent.ended = False  # since redirecting not done
+        return True
 
     def serviceRequests(self):
         """
@@ -1109,10 +1115,15 @@ class Patron(object):
                                       ('errored', self.respondent.errored),
                                       ('error', self.respondent.error),
                                      ])
+                    redirected = False
                     if self.respondent.redirectable and self.respondent.redirectant:
                         self.redirects.append(copy.copy(response))
-                        self.redirect()
-                    else:
+                        redirected = self.redirect()
+                        if not redirected:  # malformed location so record as errored
+                            self.redirects.pop()
+                            response['errored'] = True
+                            response['error'] = "Invalid redirect location"
+                    if not redirected:
                         if self.redirects:
                             response['redirects'] = copy.copy(self.redirects)
                         self.redirects = []
